@@ -166,3 +166,55 @@ func ReuseReceiver(e *Entry, enc1, enc2 []byte) (err error) {
 	}
 	return nil
 }
+
+// SharedMark walks a freshly decoded value (binary, JSON) and reports the first state element that is marked as
+// sharing its memory with another holder (the unexported flag Share() sets and Move() refuses): a decoder has just
+// allocated everything it returns, so the value is the sole owner and every element in it must be movable. An element
+// decoded with the mark is equal in every exported field, encodes identically and hashes identically — and panics in
+// the first UpdateElementProof ("Move called on shared StateElement").
+func SharedMark(root reflect.Value) error {
+	tSE := reflect.TypeOf(types.StateElement{})
+	seen := map[uintptr]bool{}
+	var walk func(v reflect.Value, path string) error
+	walk = func(v reflect.Value, path string) error {
+		switch v.Kind() {
+		case reflect.Ptr:
+			if v.IsNil() || seen[v.Pointer()] {
+				return nil
+			}
+			seen[v.Pointer()] = true
+			return walk(v.Elem(), path)
+		case reflect.Interface:
+			if v.IsNil() {
+				return nil
+			}
+			return walk(v.Elem(), path)
+		case reflect.Struct:
+			if v.Type() == tSE {
+				if f := v.FieldByName("shared"); f.IsValid() && f.Kind() == reflect.Bool && f.Bool() {
+					return fmt.Errorf("%s is marked as shared: the decoded value does not own its element (Move / UpdateElementProof on it panic)", path)
+				}
+				return nil
+			}
+			for i := 0; i < v.NumField(); i++ {
+				if v.Type().Field(i).PkgPath != "" {
+					continue
+				}
+				if err := walk(v.Field(i), path+"."+v.Type().Field(i).Name); err != nil {
+					return err
+				}
+			}
+		case reflect.Slice, reflect.Array:
+			if k := v.Type().Elem().Kind(); k == reflect.Uint8 || k == reflect.Uint64 || k == reflect.Bool {
+				return nil
+			}
+			for i := 0; i < v.Len(); i++ {
+				if err := walk(v.Index(i), fmt.Sprintf("%s[%d]", path, i)); err != nil {
+					return err
+				}
+			}
+		}
+		return nil
+	}
+	return walk(root, "")
+}
